@@ -515,6 +515,48 @@ theorem growIfFull_indep (d : Deque) (m m' : Mem) (h : m.sched = m'.sched) :
   · exact expandCapacity_indep d m m' h
   · exact ⟨rfl, rfl, h⟩
 
+/-- the two insertions (and the undo) of `zip_iter_add`, for arbitrary deques and ledgers -/
+theorem zipAdd_tail_indep (it : Iter) (e1 e2 : Deque) (x y : Nat) (n n' : Mem) (h : n.sched = n'.sched) :
+    let f := fun (n : Mem) =>
+      (if ((e1.addAt x it.index n).1 != Stat.ok) = true then
+        ((e1.addAt x it.index n).1, it, (e1.addAt x it.index n).2.1, e2, (e1.addAt x it.index n).2.2)
+      else if ((e2.addAt y it.index (e1.addAt x it.index n).2.2).1 != Stat.ok) = true then
+        ((e2.addAt y it.index (e1.addAt x it.index n).2.2).1, it,
+          ((e1.addAt x it.index n).2.1.removeAt it.index (e2.addAt y it.index (e1.addAt x it.index n).2.2).2.2).2.2.1,
+          (e2.addAt y it.index (e1.addAt x it.index n).2.2).2.1,
+          ((e1.addAt x it.index n).2.1.removeAt it.index (e2.addAt y it.index (e1.addAt x it.index n).2.2).2.2).2.2.2)
+      else
+        (Stat.ok, ({ it with index := it.index + 1 } : Iter), (e1.addAt x it.index n).2.1,
+          (e2.addAt y it.index (e1.addAt x it.index n).2.2).2.1, (e2.addAt y it.index (e1.addAt x it.index n).2.2).2.2))
+    (f n).1 = (f n').1 ∧ (f n).2.1 = (f n').2.1 ∧ (f n).2.2.1 = (f n').2.2.1 ∧ (f n).2.2.2.1 = (f n').2.2.2.1 ∧
+    (f n).2.2.2.2.sched = (f n').2.2.2.2.sched := by
+  intro f
+  have hA := addAt_indep e1 x it.index n n' h
+  simp only [f]
+  generalize e1.addAt x it.index n = A at hA ⊢
+  generalize e1.addAt x it.index n' = A' at hA ⊢
+  obtain ⟨s1, da, ma⟩ := A
+  obtain ⟨s1', da', ma'⟩ := A'
+  obtain ⟨p1, p2, p3⟩ := hA
+  simp only at p1 p2 p3
+  subst p1 p2
+  have hB := addAt_indep e2 y it.index ma ma' p3
+  simp only
+  generalize e2.addAt y it.index ma = B at hB ⊢
+  generalize e2.addAt y it.index ma' = B' at hB ⊢
+  obtain ⟨s2, db, mb⟩ := B
+  obtain ⟨s2', db', mb'⟩ := B'
+  obtain ⟨q1, q2, q3⟩ := hB
+  simp only at q1 q2 q3
+  subst q1 q2
+  simp only
+  obtain ⟨_, _, r3, r4⟩ := removeAt_indep da it.index mb mb' q3
+  split
+  · exact ⟨rfl, rfl, rfl, rfl, p3⟩
+  · split
+    · exact ⟨rfl, rfl, r3, rfl, r4⟩
+    · exact ⟨rfl, rfl, rfl, rfl, q3⟩
+
 theorem zipAdd_indep (it : Iter) (d1 d2 : Deque) (x y : Nat) (m m' : Mem) (h : m.sched = m'.sched) :
     (zipAdd it d1 d2 x y m).1 = (zipAdd it d1 d2 x y m').1 ∧ (zipAdd it d1 d2 x y m).2.1 = (zipAdd it d1 d2 x y m').2.1 ∧
     (zipAdd it d1 d2 x y m).2.2.1 = (zipAdd it d1 d2 x y m').2.2.1 ∧
@@ -537,8 +579,6 @@ theorem zipAdd_indep (it : Iter) (d1 d2 : Deque) (x y : Nat) (m m' : Mem) (h : m
   rw [b1, b2]
   split
   · exact ⟨rfl, rfl, rfl, rfl, b3⟩
-  · obtain ⟨_, p2, p3⟩ := addAt_indep (growIfFull d1 m').2.1 x it.index _ _ b3
-    obtain ⟨_, q2, q3⟩ := addAt_indep (growIfFull d2 (growIfFull d1 m').2.2).2.1 y it.index _ _ p3
-    exact ⟨rfl, rfl, p2, q2, q3⟩
+  · exact zipAdd_tail_indep it (growIfFull d1 m').2.1 (growIfFull d2 (growIfFull d1 m').2.2).2.1 x y _ _ b3
 
 end CC.Deque
